@@ -1,7 +1,12 @@
-//! rs2v — translate a small, loop-free subset of Rust (the "kernels" of /repo) into Gallina.
+//! rs2v — translate a small subset of Rust (the "kernels" of /repo) into Gallina: loop-free
+//! functions and function prefixes, and (item kind `suffix_fn`) the rest of a function from a marker
+//! statement to its end with its `while` loops, each loop becoming a Fixpoint on explicit fuel over
+//! the loop-carried state with a distinct out-of-fuel result.
 //!
-//! Output terms use only the operators of coq/Base/I64.v and coq/Base/F64.v; nothing is
-//! simplified.  Anything outside the subset is an error (reported as "tie broken"), never skipped.
+//! Output terms use only the operators of coq/Base/I64.v and coq/Base/F64.v (plus, for
+//! `suffix_fn`, the sequence/loop vocabulary of the file named in the unit's "requires":
+//! `get_usize`, `++`, `loop_res`, `lbind`, `lift_res`); nothing is simplified.  Anything outside
+//! the subset is an error (reported as "tie broken"), never skipped.
 //!
 //! Spec file (JSON): a list of units
 //!   { "out": "Num", "file": "crates/incan_stdlib/src/num.rs", "prefix": "stdlib_",
@@ -9,6 +14,13 @@
 //!     "self_fns": [{"ty":"PyRange","name":"next","fields":["cur","end","step"]}],
 //!     "prefix_fns": [{"name":"str_slice","until":"let mut out","returns":["step","start_idx","end_idx"],
 //!                     "as":"str_slice_bounds","skip":["let chars"],"extra_params":[["len","i64"]]}] }
+//! and, in "items", {"kind":"suffix_fn","name":"str_slice","as":"str_slice_loops","from":"let mut out",
+//!   "params":[["chars","seq"],["step","i64"],["start_idx","i64"],["end_idx","i64"]]} with the unit-level
+//!   "requires":["C05.SeqPrims"].  Statement vocabulary of a suffix: `let x = e;`, `let mut v = Vec::new()/
+//!   String::new();`, `x = e;`, `x += e;`, `v.push(elem);` (elem: a bound element, `*elem`, `elem.clone()`),
+//!   `if c {..} else {..}`, `if let P = e {..}`, `while c {..}`, and at the top level of a loop body
+//!   `let P = e else { break };` / `break;`; the function ends in `e` or `Ok(e)`.  Expressions are the
+//!   pure expression subset plus `seq.get(<usize>)`.
 use std::collections::{BTreeMap, BTreeSet};
 use std::fmt::Write as _;
 
@@ -24,6 +36,10 @@ enum Ty {
     Enum(String),
     Opt(Box<Ty>),
     Tup(Vec<Ty>),
+    /// a sequence (`&[T]`, `Vec<T>`, `Vec<char>`, `String` being built): Gallina `list A`
+    Seq,
+    /// an element of a sequence (`T`, `char`): Gallina `A`
+    Elem,
     Unknown,
 }
 
@@ -37,6 +53,8 @@ impl Ty {
             Ty::Opt(t) => format!("(option {})", t.coq()),
             Ty::Tup(ts) if ts.is_empty() => "unit".into(),
             Ty::Tup(ts) => format!("({})", ts.iter().map(|t| t.coq()).collect::<Vec<_>>().join(" * ")),
+            Ty::Seq => "(list A)".into(),
+            Ty::Elem => "A".into(),
             Ty::Unknown => "_".into(),
         }
     }
@@ -72,6 +90,15 @@ pub struct Ctx {
     self_ty_name: Option<String>,
     /// name used in the Rust source -> name of the generated inductive
     enum_alias: BTreeMap<String, String>,
+    /// suffix_fn: the Fixpoints generated for the `while` loops met so far (emitted before the function)
+    loop_defs: Vec<String>,
+    loop_count: usize,
+    /// suffix_fn: base name of the generated `<base>_while_<n>` Fixpoints
+    loop_base: String,
+    /// suffix_fn: source description used in the comments of the generated Fixpoints
+    loop_src: String,
+    /// suffix_fn: type of the tail expression
+    tail_ty: Ty,
 }
 
 type R<T> = Result<T, String>;
@@ -84,7 +111,7 @@ fn err<T>(msg: impl Into<String>) -> R<T> {
 fn san(n: &str) -> String {
     const KW: &[&str] = &[
         "end", "in", "at", "as", "fun", "let", "match", "then", "with", "return", "using", "mod", "fix", "forall",
-        "exists", "if", "else", "Type", "Set", "Prop", "where", "for", "cofix", "struct", "m", "Val", "Trp", "tt",
+        "exists", "if", "else", "Type", "Set", "Prop", "where", "for", "cofix", "struct", "m", "Val", "Trp", "tt", "list",
     ];
     if KW.contains(&n) { format!("{}_", n) } else { n.to_string() }
 }
@@ -197,6 +224,7 @@ impl Ctx {
                         _ => Ty::Unknown,
                     },
                     "checked_add" | "checked_sub" | "checked_mul" => Ty::Opt(Box::new(recv)),
+                    "get" if recv == Ty::Seq => Ty::Opt(Box::new(Ty::Elem)),
                     _ => recv,
                 }
             }
@@ -512,6 +540,17 @@ impl Ctx {
         let name = m.method.to_string();
         let rt = self.ty_of(&m.receiver, env);
         let recv = self.expr(&m.receiver, env, &rt)?;
+        if rt == Ty::Seq {
+            // the only read access to a sequence: `seq.get(<usize>)` = `get_usize seq i : option A`
+            if name != "get" || m.args.len() != 1 {
+                return err(format!("unsupported method .{}() with {} args on a sequence", name, m.args.len()));
+            }
+            if self.ty_of(&m.args[0], env) != Ty::Usize {
+                return err(format!("sequence index `{}` is not known to be a usize", m.args[0].to_token_stream()));
+            }
+            let a = self.expr(&m.args[0], env, &Ty::Usize)?;
+            return Ok(self.seq(vec![recv, a], |n| Tm::Pure(format!("(get_usize {} {})", n[0], n[1]))));
+        }
         let arg_ty = match (&rt, name.as_str()) {
             (Ty::Opt(t), "unwrap_or") => (**t).clone(),
             _ => rt.clone(),
@@ -1075,6 +1114,580 @@ impl Ctx {
     }
 }
 
+// =====================================================================================
+// suffix_fn: the statements of a function FROM a marker statement to its end, `while` loops
+// included.  Every `while` becomes a Fixpoint on explicit fuel over the loop-carried state (the
+// outer variables its body mutates), with result type `loop_res` (`LDone s | LTrap k | LFuel`);
+// the vocabulary is small and exact — anything else is an error (tie broken), nothing is dropped.
+// =====================================================================================
+
+/// A term of the loop translator: a pure value of type T, or a computation of type `loop_res T`.
+#[derive(Clone, Debug)]
+enum LTm {
+    Pure(String),
+    L(String),
+}
+
+impl LTm {
+    fn l(self) -> String {
+        match self {
+            LTm::Pure(s) => format!("(LDone {})", s),
+            LTm::L(s) => s,
+        }
+    }
+}
+
+/// What a statement list evaluates to when control reaches its end.
+#[derive(Clone, Debug)]
+enum Fin {
+    /// a nested block that only updates outer variables: the tuple of their current values
+    Vars(Vec<String>),
+    /// the body of a `while`: the next iteration (a call of the Fixpoint with one fuel unit less)
+    Recur(String),
+    /// the function itself: the tail expression (`Ok(e)` when `ok`) is the result
+    Tail { ok: bool },
+}
+
+fn tuple_of(vs: &[String]) -> String {
+    if vs.len() == 1 { vs[0].clone() } else { format!("({})", vs.join(", ")) }
+}
+
+fn tuple_pat(vs: &[String]) -> String {
+    if vs.len() == 1 { vs[0].clone() } else { format!("'({})", vs.join(", ")) }
+}
+
+fn lbind_let(name: &str, v: Tm, k: LTm) -> LTm {
+    match (v, k) {
+        (Tm::Pure(v), LTm::Pure(k)) => LTm::Pure(format!("(let {} := {} in\n  {})", name, v, k)),
+        (Tm::Pure(v), LTm::L(k)) => LTm::L(format!("(let {} := {} in\n  {})", name, v, k)),
+        (Tm::Mon(v), k) => LTm::L(format!("(lbind (lift_res {}) (fun {} =>\n  {}))", v, name, k.l())),
+    }
+}
+
+fn lbind_pat(vars: &[String], v: LTm, k: LTm) -> LTm {
+    let pat = tuple_pat(vars);
+    match (v, k) {
+        (LTm::Pure(v), LTm::Pure(k)) => LTm::Pure(format!("(let {} := {} in\n  {})", pat, v, k)),
+        (LTm::Pure(v), LTm::L(k)) => LTm::L(format!("(let {} := {} in\n  {})", pat, v, k)),
+        (LTm::L(v), k) => LTm::L(format!("(lbind {} (fun {} =>\n  {}))", v, pat, k.l())),
+    }
+}
+
+/// `{ break }` / `{ break; }`
+fn is_break_block(b: &Expr) -> bool {
+    let is_break = |e: &Expr| matches!(e, Expr::Break(br) if br.label.is_none() && br.expr.is_none());
+    match b {
+        Expr::Block(bl) if bl.label.is_none() && bl.block.stmts.len() == 1 => match &bl.block.stmts[0] {
+            Stmt::Expr(e, _) => is_break(e),
+            _ => false,
+        },
+        _ => false,
+    }
+}
+
+/// `String::new()` / `Vec::new()`: the empty sequence
+fn is_new_seq(e: &Expr) -> bool {
+    if let Expr::Call(c) = e {
+        if c.args.is_empty() {
+            if let Expr::Path(p) = &*c.func {
+                let segs: Vec<String> = p.path.segments.iter().map(|s| s.ident.to_string()).collect();
+                return segs == ["String", "new"] || segs == ["Vec", "new"];
+            }
+        }
+    }
+    false
+}
+
+/// Expressions of the loop part must be free of effects and of control flow: the expression
+/// translator would otherwise scope an assignment to the expression and lose it.
+fn effect_in_expr(e: &Expr) -> Option<String> {
+    use syn::visit::Visit;
+    struct V(Option<String>);
+    impl<'ast> Visit<'ast> for V {
+        fn visit_expr(&mut self, e: &'ast Expr) {
+            let bad = match e {
+                Expr::Assign(_) => Some("assignment"),
+                Expr::Binary(b) if is_any_compound(&b.op) => Some("compound assignment"),
+                Expr::While(_) | Expr::Loop(_) | Expr::ForLoop(_) => Some("loop"),
+                Expr::Break(_) | Expr::Continue(_) | Expr::Return(_) => Some("jump"),
+                Expr::Closure(_) => Some("closure"),
+                Expr::Macro(_) => Some("macro"),
+                Expr::Unsafe(_) | Expr::Async(_) | Expr::Await(_) | Expr::Try(_) | Expr::Yield(_) => Some("unsupported control"),
+                Expr::Reference(r) if r.mutability.is_some() => Some("mutable borrow"),
+                Expr::MethodCall(m) if m.method == "push" => Some("push"),
+                _ => None,
+            };
+            if let (Some(b), None) = (bad, &self.0) {
+                self.0 = Some(format!("{} inside the expression `{}`", b, e.to_token_stream()));
+            }
+            syn::visit::visit_expr(self, e);
+        }
+        fn visit_local(&mut self, l: &'ast syn::Local) {
+            if self.0.is_none() {
+                self.0 = Some(format!("`let` inside an expression: `{}`", l.to_token_stream()));
+            }
+        }
+        fn visit_item(&mut self, _: &'ast Item) {
+            if self.0.is_none() {
+                self.0 = Some("item inside an expression".into());
+            }
+        }
+    }
+    let mut v = V(None);
+    v.visit_expr(e);
+    v.0
+}
+
+fn is_any_compound(op: &BinOp) -> bool {
+    matches!(
+        op,
+        BinOp::AddAssign(_)
+            | BinOp::SubAssign(_)
+            | BinOp::MulAssign(_)
+            | BinOp::DivAssign(_)
+            | BinOp::RemAssign(_)
+            | BinOp::BitXorAssign(_)
+            | BinOp::BitAndAssign(_)
+            | BinOp::BitOrAssign(_)
+            | BinOp::ShlAssign(_)
+            | BinOp::ShrAssign(_)
+    )
+}
+
+/// identifiers occurring anywhere in a token stream
+fn idents_in(ts: proc_macro2::TokenStream, out: &mut BTreeSet<String>) {
+    for t in ts {
+        match t {
+            proc_macro2::TokenTree::Ident(i) => {
+                out.insert(san(&i.to_string()));
+            }
+            proc_macro2::TokenTree::Group(g) => idents_in(g.stream(), out),
+            _ => {}
+        }
+    }
+}
+
+impl Ctx {
+    /// a pure expression of the loop part (effects inside it are an error)
+    fn lexpr(&mut self, e: &Expr, env: &Env, want: &Ty) -> R<Tm> {
+        if let Some(why) = effect_in_expr(e) {
+            return err(why);
+        }
+        self.expr(e, env, want)
+    }
+
+    /// the element pushed onto a sequence: a variable bound to an element, `*v`, `v.clone()`
+    fn elem_expr(&self, e: &Expr, env: &Env) -> R<String> {
+        match e {
+            Expr::Paren(p) => self.elem_expr(&p.expr, env),
+            Expr::Path(p) if p.path.get_ident().is_some() => {
+                let n = san(&p.path.get_ident().map(|i| i.to_string()).unwrap_or_default());
+                if env.get(&n) == Some(&Ty::Elem) { Ok(n) } else { err(format!("`{}` is not a sequence element", n)) }
+            }
+            Expr::Unary(u) if matches!(u.op, UnOp::Deref(_)) => self.elem_expr(&u.expr, env),
+            Expr::MethodCall(m) if m.method == "clone" && m.args.is_empty() && m.turbofish.is_none() => {
+                self.elem_expr(&m.receiver, env)
+            }
+            _ => err(format!("unsupported element expression `{}`", e.to_token_stream())),
+        }
+    }
+
+    /// names newly bound by a `let`/pattern inside a nested block or loop body must not hide an
+    /// outer variable: the block's result is read back through the outer names
+    fn bound_names(p: &Pat, out: &mut Vec<String>) {
+        match p {
+            Pat::Ident(i) => {
+                let n = san(&i.ident.to_string());
+                if n != "None" {
+                    out.push(n);
+                }
+                if let Some((_, sub)) = &i.subpat {
+                    Self::bound_names(sub, out);
+                }
+            }
+            Pat::TupleStruct(ts) => ts.elems.iter().for_each(|x| Self::bound_names(x, out)),
+            Pat::Tuple(t) => t.elems.iter().for_each(|x| Self::bound_names(x, out)),
+            Pat::Or(o) => o.cases.iter().for_each(|x| Self::bound_names(x, out)),
+            Pat::Paren(pp) => Self::bound_names(&pp.pat, out),
+            Pat::Type(pt) => Self::bound_names(&pt.pat, out),
+            Pat::Reference(r) => Self::bound_names(&r.pat, out),
+            _ => {}
+        }
+    }
+
+    fn check_binders(&self, p: &Pat, outer: &BTreeSet<String>) -> R<()> {
+        let mut names = Vec::new();
+        Self::bound_names(p, &mut names);
+        for n in names {
+            if n == "fuel" || n == "A" {
+                return err(format!("variable name `{}` is reserved by the loop translation", n));
+            }
+            if outer.contains(&n) {
+                return err(format!("`{}` is re-bound inside a block or loop body, hiding a variable declared outside it", n));
+            }
+        }
+        Ok(())
+    }
+
+    /// outer variables (present in `env`) mutated by a statement list, loops and pushes included
+    fn mutated(&self, stmts: &[Stmt], env: &Env, out: &mut BTreeSet<String>) {
+        for s in stmts {
+            if let Stmt::Expr(e, _) = s {
+                self.mutated_e(e, env, out);
+            }
+        }
+    }
+
+    fn mutated_e(&self, e: &Expr, env: &Env, out: &mut BTreeSet<String>) {
+        let var = |x: &Expr| -> Option<String> {
+            match x {
+                Expr::Path(p) => p.path.get_ident().map(|i| san(&i.to_string())).filter(|n| env.contains_key(n)),
+                _ => None,
+            }
+        };
+        match e {
+            Expr::Assign(a) => {
+                if let Some(n) = var(&a.left) {
+                    out.insert(n);
+                }
+            }
+            Expr::Binary(b) if is_any_compound(&b.op) => {
+                if let Some(n) = var(&b.left) {
+                    out.insert(n);
+                }
+            }
+            Expr::MethodCall(m) if m.method == "push" => {
+                if let Some(n) = var(&m.receiver) {
+                    out.insert(n);
+                }
+            }
+            Expr::If(i) => {
+                self.mutated(&i.then_branch.stmts, env, out);
+                if let Some((_, e)) = &i.else_branch {
+                    self.mutated_e(e, env, out);
+                }
+            }
+            Expr::Block(b) => self.mutated(&b.block.stmts, env, out),
+            Expr::While(w) => self.mutated(&w.body.stmts, env, out),
+            _ => {}
+        }
+    }
+
+    /// Statement list of the loop part.  `brk`: the term a `break` evaluates to — only available
+    /// at the top level of a loop body; `outer`: the variables declared outside the innermost
+    /// enclosing block or loop body (they must not be re-bound inside it).
+    fn lblock(&mut self, stmts: &[Stmt], env: &Env, fin: &Fin, brk: Option<&str>, outer: &BTreeSet<String>) -> R<LTm> {
+        let Some((first, rest)) = stmts.split_first() else {
+            return match fin {
+                Fin::Vars(vs) => Ok(LTm::Pure(tuple_of(vs))),
+                Fin::Recur(call) => Ok(LTm::L(call.clone())),
+                Fin::Tail { .. } => err("the function ends without a result expression"),
+            };
+        };
+        match first {
+            Stmt::Local(l) => {
+                let init = l.init.as_ref().ok_or("let without initializer")?;
+                if let Some((_, div)) = &init.diverge {
+                    // `let PAT = E else { break };`
+                    let Some(brk_tm) = brk else {
+                        return err("let-else outside the top level of a loop body");
+                    };
+                    if !is_break_block(div) {
+                        return err(format!("let-else whose else branch is not `{{ break }}`: `{}`", div.to_token_stream()));
+                    }
+                    self.check_binders(&l.pat, outer)?;
+                    let st = self.ty_of(&init.expr, env);
+                    let scrut = self.lexpr(&init.expr, env, &st)?;
+                    let mut env2 = env.clone();
+                    let ps = self.pat(&l.pat, &st, &mut env2)?;
+                    let k = self.lblock(rest, &env2, fin, brk, outer)?.l();
+                    let brk_s = brk_tm.to_string();
+                    return Ok(match scrut {
+                        Tm::Pure(v) => LTm::L(format!("(match {} with {} =>\n  {} | _ => {} end)", v, ps, k, brk_s)),
+                        Tm::Mon(v) => {
+                            let n = self.fresh("t");
+                            LTm::L(format!(
+                                "(lbind (lift_res {}) (fun {} =>\n  (match {} with {} =>\n  {} | _ => {} end)))",
+                                v, n, n, ps, k, brk_s
+                            ))
+                        }
+                    });
+                }
+                let (name, ann) = match &l.pat {
+                    Pat::Ident(i) if i.by_ref.is_none() && i.subpat.is_none() => (san(&i.ident.to_string()), None),
+                    Pat::Type(pt) => match &*pt.pat {
+                        Pat::Ident(i) if i.by_ref.is_none() && i.subpat.is_none() => {
+                            (san(&i.ident.to_string()), Some(conv_ty(&pt.ty, self)?))
+                        }
+                        _ => return err("unsupported let pattern"),
+                    },
+                    _ => return err(format!("unsupported let pattern {}", l.pat.to_token_stream())),
+                };
+                self.check_binders(&l.pat, outer)?;
+                let (t, v) = if is_new_seq(&init.expr) {
+                    (Ty::Seq, Tm::Pure("[]".into()))
+                } else {
+                    let t = ann.unwrap_or_else(|| self.ty_of(&init.expr, env));
+                    let t = if t == Ty::Unknown { Ty::I64 } else { t };
+                    let v = self.lexpr(&init.expr, env, &t)?;
+                    (t, v)
+                };
+                let mut env2 = env.clone();
+                env2.insert(name.clone(), t);
+                let k = self.lblock(rest, &env2, fin, brk, outer)?;
+                Ok(lbind_let(&name, v, k))
+            }
+            Stmt::Expr(e, semi) => {
+                if let Fin::Tail { ok } = fin {
+                    if rest.is_empty() && semi.is_none() && !matches!(e, Expr::If(_) | Expr::While(_)) {
+                        let inner: &Expr = if *ok {
+                            match e {
+                                Expr::Call(c)
+                                    if c.args.len() == 1
+                                        && matches!(&*c.func, Expr::Path(p) if p.path.is_ident("Ok")) =>
+                                {
+                                    &c.args[0]
+                                }
+                                _ => return err(format!("the result expression `{}` is not `Ok(..)`", e.to_token_stream())),
+                            }
+                        } else {
+                            e
+                        };
+                        let t = self.ty_of(inner, env);
+                        if t == Ty::Unknown {
+                            return err(format!("result expression `{}` of unknown type", inner.to_token_stream()));
+                        }
+                        let v = self.lexpr(inner, env, &t)?;
+                        self.tail_ty = t;
+                        return Ok(match v {
+                            Tm::Pure(s) => LTm::Pure(s),
+                            Tm::Mon(s) => LTm::L(format!("(lift_res {})", s)),
+                        });
+                    }
+                }
+                match e {
+                    Expr::Assign(a) => {
+                        let name = self.lhs_name(&a.left, env)?;
+                        let t = env.get(&name).cloned().unwrap_or(Ty::I64);
+                        if t == Ty::Seq || t == Ty::Elem {
+                            return err(format!("assignment to the sequence-typed variable `{}`", name));
+                        }
+                        let v = self.lexpr(&a.right, env, &t)?;
+                        let k = self.lblock(rest, env, fin, brk, outer)?;
+                        Ok(lbind_let(&name, v, k))
+                    }
+                    Expr::Binary(b) if is_compound(&b.op) => {
+                        let name = self.lhs_name(&b.left, env)?;
+                        if let Some(why) = effect_in_expr(&b.right) {
+                            return err(why);
+                        }
+                        let v = self.compound(b, env)?;
+                        let k = self.lblock(rest, env, fin, brk, outer)?;
+                        Ok(lbind_let(&name, v, k))
+                    }
+                    Expr::MethodCall(m) if m.method == "push" && m.args.len() == 1 && m.turbofish.is_none() => {
+                        // `out.push(x)`: append one element to a sequence variable
+                        let name = self.lhs_name(&m.receiver, env)?;
+                        if env.get(&name) != Some(&Ty::Seq) {
+                            return err(format!("push on `{}`, which is not a sequence variable", name));
+                        }
+                        let x = self.elem_expr(&m.args[0], env)?;
+                        let k = self.lblock(rest, env, fin, brk, outer)?;
+                        Ok(lbind_let(&name, Tm::Pure(format!("({} ++ [{}])", name, x)), k))
+                    }
+                    Expr::If(i) => self.lif_stmt(i, rest, env, fin, brk, outer),
+                    Expr::While(w) => self.lwhile(w, rest, env, fin, brk, outer),
+                    Expr::Break(b) if b.label.is_none() && b.expr.is_none() => {
+                        let Some(brk_tm) = brk else {
+                            return err("`break` outside the top level of a loop body");
+                        };
+                        if !rest.is_empty() {
+                            return err("statements after `break`");
+                        }
+                        Ok(LTm::L(brk_tm.to_string()))
+                    }
+                    _ => err(format!("unsupported statement in the loop part: {}", e.to_token_stream())),
+                }
+            }
+            Stmt::Macro(m) => err(format!("unsupported statement macro in the loop part: {}", m.mac.path.to_token_stream())),
+            Stmt::Item(_) => err("nested items are not supported"),
+        }
+    }
+
+    /// `if c { .. } else { .. }` / `if let P = e { .. }` used as a statement: it updates the outer
+    /// variables its branches mutate; `break`/`return` inside the branches are errors.
+    fn lif_stmt(&mut self, i: &syn::ExprIf, rest: &[Stmt], env: &Env, fin: &Fin, brk: Option<&str>, outer: &BTreeSet<String>) -> R<LTm> {
+        let mut vars = BTreeSet::new();
+        self.mutated(&i.then_branch.stmts, env, &mut vars);
+        if let Some((_, e)) = &i.else_branch {
+            self.mutated_e(e, env, &mut vars);
+        }
+        let vars: Vec<String> = vars.into_iter().collect();
+        if vars.is_empty() {
+            return err(format!("if statement without effect on the variables in scope: `if {} ..`", i.cond.to_token_stream()));
+        }
+        let inner = Fin::Vars(vars.clone());
+        let here: BTreeSet<String> = env.keys().cloned().collect();
+        let else_tm = |cx: &mut Ctx| -> R<LTm> {
+            match &i.else_branch {
+                Some((_, e)) => match &**e {
+                    Expr::Block(b) if b.label.is_none() => cx.lblock(&b.block.stmts, env, &inner, None, &here),
+                    other @ Expr::If(_) => {
+                        let st = vec![Stmt::Expr(other.clone(), Some(Default::default()))];
+                        cx.lblock(&st, env, &inner, None, &here)
+                    }
+                    other => err(format!("unsupported else branch `{}`", other.to_token_stream())),
+                },
+                None => Ok(LTm::Pure(tuple_of(&vars))),
+            }
+        };
+        let (head, scrut, a, b) = if let Expr::Let(l) = &*i.cond {
+            self.check_binders(&l.pat, &here)?;
+            let st = self.ty_of(&l.expr, env);
+            let scrut = self.lexpr(&l.expr, env, &st)?;
+            let mut aenv = env.clone();
+            let ps = self.pat(&l.pat, &st, &mut aenv)?;
+            let a = self.lblock(&i.then_branch.stmts, &aenv, &inner, None, &here)?;
+            let b = else_tm(self)?;
+            (Some(ps), scrut, a, b)
+        } else {
+            let c = self.lexpr(&i.cond, env, &Ty::Bool)?;
+            let a = self.lblock(&i.then_branch.stmts, env, &inner, None, &here)?;
+            let b = else_tm(self)?;
+            (None, c, a, b)
+        };
+        let any = matches!(a, LTm::L(_)) || matches!(b, LTm::L(_));
+        let (a_s, b_s) = if any {
+            (a.l(), b.l())
+        } else {
+            match (a, b) {
+                (LTm::Pure(x), LTm::Pure(y)) => (x, y),
+                _ => unreachable!(),
+            }
+        };
+        let build = |v: &str| match &head {
+            Some(ps) => format!("(match {} with {} => {} | _ => {} end)", v, ps, a_s, b_s),
+            None => format!("(if {} then {} else {})", v, a_s, b_s),
+        };
+        let upd = match scrut {
+            Tm::Pure(v) => {
+                let t = build(&v);
+                if any { LTm::L(t) } else { LTm::Pure(t) }
+            }
+            Tm::Mon(v) => {
+                let n = self.fresh("t");
+                let t = build(&n);
+                let t = if any { t } else { format!("(LDone {})", t) };
+                LTm::L(format!("(lbind (lift_res {}) (fun {} => {}))", v, n, t))
+            }
+        };
+        let k = self.lblock(rest, env, fin, brk, outer)?;
+        Ok(lbind_pat(&vars, upd, k))
+    }
+
+    /// `while c { body }`: a Fixpoint on fuel over the outer variables the body mutates.
+    fn lwhile(&mut self, w: &syn::ExprWhile, rest: &[Stmt], env: &Env, fin: &Fin, brk: Option<&str>, outer: &BTreeSet<String>) -> R<LTm> {
+        if w.label.is_some() {
+            return err("labelled loops are not supported");
+        }
+        if matches!(&*w.cond, Expr::Let(_)) {
+            return err("while-let is not supported");
+        }
+        let mut st = BTreeSet::new();
+        self.mutated(&w.body.stmts, env, &mut st);
+        let state: Vec<String> = st.into_iter().collect();
+        if state.is_empty() {
+            return err(format!("`while {}` has no loop-carried state", w.cond.to_token_stream()));
+        }
+        // read-only parameters: the other variables in scope that the loop mentions
+        let mut mentioned = BTreeSet::new();
+        idents_in(w.cond.to_token_stream(), &mut mentioned);
+        idents_in(w.body.to_token_stream(), &mut mentioned);
+        let ro: Vec<String> = mentioned.into_iter().filter(|n| env.contains_key(n) && !state.contains(n)).collect();
+        for n in ro.iter().chain(state.iter()) {
+            if n == "fuel" || n == "A" {
+                return err(format!("variable name `{}` is reserved by the loop translation", n));
+            }
+        }
+        let c = match self.lexpr(&w.cond, env, &Ty::Bool)? {
+            Tm::Pure(c) => c,
+            Tm::Mon(_) => return err(format!("loop condition `{}` can trap", w.cond.to_token_stream())),
+        };
+        // numbered in source order; an inner loop is finished, hence emitted, before the loop around it
+        self.loop_count += 1;
+        let idx = self.loop_count;
+        let name = format!("{}_while_{}", self.loop_base, idx);
+        let args = |v: &[String]| v.iter().map(|x| format!(" {}", x)).collect::<String>();
+        let state_tuple = format!("(LDone {})", tuple_of(&state));
+        let call = format!("({} fuel' m{}{})", name, args(&ro), args(&state));
+        let here: BTreeSet<String> = env.keys().cloned().collect();
+        let body = self.lblock(&w.body.stmts, env, &Fin::Recur(call), Some(&state_tuple), &here)?.l();
+        let ty = |n: &String| env.get(n).cloned().unwrap_or(Ty::Unknown);
+        let needs_a = ro.iter().chain(state.iter()).any(|n| matches!(ty(n), Ty::Seq | Ty::Elem));
+        let binders: String = ro.iter().chain(state.iter()).map(|n| format!(" ({} : {})", n, ty(n).coq())).collect();
+        let st_ty = if state.len() == 1 {
+            ty(&state[0]).coq()
+        } else {
+            format!("({})", state.iter().map(|n| ty(n).coq()).collect::<Vec<_>>().join(" * "))
+        };
+        let mut d = String::new();
+        writeln!(d, "(* generated from {}, loop {}: `while {}`; state ({}) — do not edit *)", self.loop_src, idx, w.cond.to_token_stream(), state.join(", ")).unwrap();
+        writeln!(
+            d,
+            "Fixpoint {}{} (fuel : nat) (m : mode){} {{struct fuel}} : loop_res {} :=\n  match fuel with\n  | O => LFuel\n  | S fuel' =>\n  (if {} then\n  {}\n  else {})\n  end.\n",
+            name,
+            if needs_a { " {A : Type}" } else { "" },
+            binders,
+            st_ty,
+            c,
+            body,
+            state_tuple
+        )
+        .unwrap();
+        self.loop_defs.push(d);
+        let k = self.lblock(rest, env, fin, brk, outer)?;
+        let run = LTm::L(format!("({} fuel m{}{})", name, args(&ro), args(&state)));
+        Ok(lbind_pat(&state, run, k))
+    }
+
+    /// the function `coq_name fuel m params..` for the statements `stmts` (marker to end)
+    fn emit_suffix_fn(&mut self, coq_name: &str, params: &[(String, Ty)], stmts: &[Stmt], ok: bool, src: &str, out: &mut String) -> R<()> {
+        let mut env = Env::new();
+        for (n, t) in params {
+            if n == "fuel" || n == "A" {
+                return err(format!("parameter name `{}` is reserved by the loop translation", n));
+            }
+            env.insert(n.clone(), t.clone());
+        }
+        self.fresh = 0;
+        self.self_fields = vec![];
+        self.loop_defs.clear();
+        self.loop_count = 0;
+        self.loop_base = coq_name.to_string();
+        self.loop_src = src.to_string();
+        self.tail_ty = Ty::Unknown;
+        let body = self.lblock(stmts, &env, &Fin::Tail { ok }, None, &BTreeSet::new())?.l();
+        for d in self.loop_defs.iter() {
+            out.push_str(d);
+        }
+        let needs_a = params.iter().any(|(_, t)| matches!(t, Ty::Seq | Ty::Elem)) || matches!(self.tail_ty, Ty::Seq | Ty::Elem);
+        let ps: String = params.iter().map(|(n, t)| format!(" ({} : {})", n, t.coq())).collect();
+        writeln!(out, "(* generated from {} — do not edit *)", src).unwrap();
+        writeln!(
+            out,
+            "Definition {}{} (fuel : nat) (m : mode){} : loop_res {} :=\n  {}.\n",
+            coq_name,
+            if needs_a { " {A : Type}" } else { "" },
+            ps,
+            self.tail_ty.coq(),
+            body
+        )
+        .unwrap();
+        self.loop_defs.clear();
+        Ok(())
+    }
+}
+
 fn is_guard_call(c: &syn::ExprCall) -> bool {
     matches!(&*c.func, Expr::Path(p) if p.path.is_ident("__rs2v_guard")) && c.args.len() == 1
 }
@@ -1154,6 +1767,7 @@ fn parse_ty_name(s: &str) -> Ty {
         "f64" => Ty::F64,
         "bool" => Ty::Bool,
         "Option<i64>" => Ty::Opt(Box::new(Ty::I64)),
+        "seq" => Ty::Seq,
         other => Ty::Enum(other.to_string()),
     }
 }
@@ -1182,6 +1796,11 @@ pub fn translate_unit(repo: &str, unit: &serde_json::Value, done: &mut Done) -> 
         self_fields: vec![],
         self_ty_name: None,
         enum_alias: BTreeMap::new(),
+        loop_defs: vec![],
+        loop_count: 0,
+        loop_base: String::new(),
+        loop_src: String::new(),
+        tail_ty: Ty::Unknown,
     };
     let mut out = String::new();
     let mut rep = UnitReport { out: out_name.clone(), items: vec![] };
@@ -1198,6 +1817,9 @@ pub fn translate_unit(repo: &str, unit: &serde_json::Value, done: &mut Done) -> 
             cx.fns.insert(k.clone(), v.clone());
         }
         writeln!(out, "From Verif Require Import Gen.{}.", iname).unwrap();
+    }
+    for rq in unit["requires"].as_array().unwrap_or(&empty) {
+        writeln!(out, "From Verif Require Import {}.", rq.as_str().ok_or("requires entry")?).unwrap();
     }
     writeln!(out, "Open Scope Z_scope.\n").unwrap();
     for fe in unit["foreign_enums"].as_array().unwrap_or(&empty) {
@@ -1374,6 +1996,37 @@ pub fn translate_unit(repo: &str, unit: &serde_json::Value, done: &mut Done) -> 
                 cx.self_ty_name = None;
                 cx.emit_fn(&coq_name, &f.sig, &stmts, &[], &extra, Some(ret), &format!("{} fn {} (prefix up to `{}`)", file_rel, name, until), &mut out)
                     .map_err(|e| format!("{}::{} (prefix): {}", file_rel, name, e))?;
+                let h: String = f.block.stmts.iter().map(stmt_text).collect::<Vec<_>>().join(";");
+                rep.items.push((coq_name, file_rel.to_string(), normalized_hash(&h)));
+            }
+            "suffix_fn" => {
+                // the statements of `name` FROM the first one whose text starts with `from` to the end
+                // of the function, `while` loops included (see `lblock`); the variables in scope at
+                // the marker that the suffix uses are declared in "params" (types i64/usize/bool/seq).
+                let f = find_fn(&file, name).ok_or(format!("fn {} not found in {}", name, file_rel))?;
+                let from = entry["from"].as_str().ok_or("suffix_fn.from missing")?;
+                let from_n: String = from.split_whitespace().collect::<Vec<_>>().join(" ");
+                let params: Vec<(String, Ty)> = entry["params"]
+                    .as_array()
+                    .unwrap_or(&empty)
+                    .iter()
+                    .filter_map(|p| Some((san(p[0].as_str()?), parse_ty_name(p[1].as_str()?))))
+                    .collect();
+                let coq_name = format!("{}{}", prefix, entry["as"].as_str().unwrap_or(name));
+                let pos = f.block.stmts.iter().position(|s| stmt_text(s).starts_with(&from_n));
+                let Some(pos) = pos else {
+                    return err(format!("{}::{}: marker statement `{}` not found", file_rel, name, from));
+                };
+                let stmts: Vec<Stmt> = f.block.stmts[pos..].to_vec();
+                let ok = match &f.sig.output {
+                    syn::ReturnType::Type(_, t) => {
+                        matches!(&**t, syn::Type::Path(p) if p.path.segments.last().map(|s| s.ident == "Result").unwrap_or(false))
+                    }
+                    _ => false,
+                };
+                cx.self_ty_name = None;
+                cx.emit_suffix_fn(&coq_name, &params, &stmts, ok, &format!("{} fn {} (from `{}` to the end)", file_rel, name, from), &mut out)
+                    .map_err(|e| format!("{}::{} (loop part): {}", file_rel, name, e))?;
                 let h: String = f.block.stmts.iter().map(stmt_text).collect::<Vec<_>>().join(";");
                 rep.items.push((coq_name, file_rel.to_string(), normalized_hash(&h)));
             }
